@@ -48,7 +48,7 @@ Proof.
   set (B := structure_Uij2betaij adp c).
   match goal with |- context [exp (- ?e)] =>
     replace e with (quad h (mmul Rm (mmul B (mtrans Rm))))
-      by (destruct h, Rm, B; unfold quad, vdot, mvmul, mmul, mtrans; cbn; ring) end.
+      by (destruct h, Rm, B; unfold quad; mcbv; ring) end.
   unfold term, phase, W_ani, pop; cbn [fst snd]. fold B.
   rewrite phase_arg. rewrite <- term_eq. apply C_ext; cbn [fst snd]; ring.
 Qed.
@@ -58,7 +58,7 @@ Lemma W_ani_invariant c adp occ multi nsym h Rk Rm :
   W_ani c adp occ multi nsym (rowmul h Rk) Rm = W_ani c adp occ multi nsym h (mmul Rk Rm).
 Proof.
   unfold W_ani, quad. f_equal. f_equal. f_equal.
-  set (B := structure_Uij2betaij adp c). destruct h, Rk, Rm, B. unfold rowmul, vdot, mvmul, mmul, mtrans; cbn. ring.
+  generalize (structure_Uij2betaij adp c). intros B. destruct h, Rk, Rm, B. unfold rowmul; mcbv. ring.
 Qed.
 Lemma W_none_invariant occ multi nsym h Rk Rm : W_none occ multi nsym (rowmul h Rk) Rm = W_none occ multi nsym h (mmul Rk Rm).
 Proof. reflexivity. Qed.
